@@ -1450,11 +1450,11 @@ class HKLF(Command):
         if len(p) > 1:
             self.s = p[1]
         if len(p) > 10:
-            self.matrix = p[3:11]
+            self.matrix = p[2:11]
         if len(p) > 11:
-            self.sm = p[12]
+            self.sm = p[11]
         if len(p) > 12:
-            self.m = p[13]
+            self.m = p[12]
 
     def __repr__(self) -> str:
         return "HKLF {:,g} {:,g}  {}  {:,g} {:,g}".format(self.n, self.s, ' '.join([str(i) for i in self.matrix]),
